@@ -29,7 +29,7 @@ REPO_SRCS = [
     "src/Factored/Bandit/Algorithms/Utils/LocalSearch.cpp",
     "src/Factored/Bandit/Algorithms/Utils/ReusingIterativeLocalSearch.cpp",
 ]
-EXTRA_LINK = ["/usr/lib/liblpsolve55.a", "-lcolamd", "-ldl"]
+EXTRA_LINK = ["/usr/lib/liblpsolve55.a", "-lcolamd", "-ldl", "-pthread"]
 AXIOM_ALLOW = []
 CASE_TIMEOUT = 60
 THOROUGH_SEEDS = 3
@@ -84,13 +84,12 @@ COVERED = {
     "include/AIToolbox/Utils/Probability.hpp::probabilityDistribution": ("stateless-distribution", "uniform_real_distribution(0,1) holds parameters only; every sampler takes the engine explicitly (prog/seeded scenarios)"),
     "include/AIToolbox/Factored/Utils/FactorGraph.hpp::factorAdjacenciesPool_": ("node-pool", "pool_recycle_independent, pool_is_unobservable, pool_unrelated_graphs"),
     "include/AIToolbox/Factored/Utils/FactorGraph.hpp::FactorGraph<FD>::factorAdjacenciesPool_": ("node-pool", "pool_recycle_independent (definition of the static member)"),
-    "src/POMDP/Algorithms/AMDP.cpp::stepSize": ("amdp-static", "amdp_discretizer_independent_refuted / known finding; removed by fixes/C16-amdp-static.patch"),
-    # /verif's own instrumentation (commit 43e6710, compiled only with -DAITOOLBOX_VERIF): the process-wide observer
-    # callbacks of the C03 hook.  Written only by the harness, never by the library; unset (empty) they change nothing.
-    "src/POMDP/Algorithms/GapMin.cpp::bool": ("verif-hook", "C03 observer hook (AITOOLBOX_VERIF only): std::function<bool(const VerifSnapshot&)> observer, set by the C03 harness only"),
-    "src/POMDP/Algorithms/SARSOP.cpp::void": ("verif-hook", "C03 event hook (AITOOLBOX_VERIF only, commit 9062f5a): std::function<void(const VerifEvent&)> observer, set by the C03 harness only"),
-    "include/AIToolbox/POMDP/Algorithms/Witness.hpp::void": ("verif-hook", "C02 event hook (AITOOLBOX_VERIF only, commit 8fdad9c): std::function<void(const VerifEvent&)> observer of the witness queries, set by the C02 harness only"),
-    "src/POMDP/Algorithms/SARSOP.cpp::bool": ("verif-hook", "C03 observer hook (AITOOLBOX_VERIF only): std::function<bool(const VerifSnapshot&)> observer, set by the C03 harness only"),
+    # /verif's own instrumentation (compiled only with -DAITOOLBOX_VERIF): process-wide observer callbacks.  Written
+    # only by a harness, never by the library; unset (empty) they change nothing.
+    "src/POMDP/Algorithms/GapMin.cpp::observer": ("verif-hook", "C03 observer hook (commit 43e6710): function-local static std::function inside verifObserver(), set by the C03 harness only"),
+    "src/POMDP/Algorithms/SARSOP.cpp::observer": ("verif-hook", "C03 observer / event hooks (commits 43e6710, 9062f5a): function-local static std::function objects, set by the C03 harness only"),
+    "include/AIToolbox/POMDP/Algorithms/Witness.hpp::observer": ("verif-hook", "C02 event hook (commit 8fdad9c): function-local static std::function of the witness queries, set by the C02 harness only"),
+    "include/AIToolbox/Factored/Bandit/Algorithms/Utils/UCVE.hpp::verifBoundsObserver": ("verif-hook", "C13 hook (commit c2b3fd6): static inline std::function reporting the variance bounds of every agent removal, set by the C13 harness only"),
 }
 _BG = "include/AIToolbox/POMDP/Algorithms/Utils/BeliefGenerator.hpp::"
 _SCR = "mutable-scratch"
@@ -177,6 +176,11 @@ def _drop_angles(s):
     while prev != s:
         prev = s
         s = re.sub(r"<[^<>;{}()]*>", " ", s)
+    # template arguments that contain a function type: std::function<void(int, double)>
+    prev = None
+    while prev != s:
+        prev = s
+        s = re.sub(r"(?<=\w)\s*<[^<>;{}=]*\([^<>;{}=]*\)[^<>;{}=]*>", " ", s)
     return s
 
 
@@ -323,6 +327,7 @@ def _judge(found, rel, line, stmt, ctx):
     pre_init = re.split(r"=", nt, 1)[0]
     specs = re.split(r"\(|\{|\[", pre_init, 1)[0]
     is_static = re.search(r"\b(static|thread_local)\b", specs) is not None
+    tl = "thread-local-" if re.search(r"\bthread_local\b", specs) else ""
     is_constexpr = re.search(r"\b(constexpr|consteval|constinit)\b", specs) is not None
     is_const = re.search(r"\bconst\b", specs) is not None
     has_call = "(" in pre_init
@@ -338,7 +343,7 @@ def _judge(found, rel, line, stmt, ctx):
         if is_static and not is_constexpr:
             # inside a body `static T f(args);` cannot be a function worth the name: always a variable
             for name in _decl_names(nt):
-                found.append((rel, line, name, "function-local-static"))
+                found.append((rel, line, name, tl + "function-local-static"))
         return
     if ctx == "class":
         if re.match(r"^(using|typedef|friend|static_assert|template|enum|class|struct)\b", s):
@@ -349,7 +354,7 @@ def _judge(found, rel, line, stmt, ctx):
             return
         if is_static and not is_constexpr and not is_const and not is_function_decl:
             for name in _decl_names(nt):
-                found.append((rel, line, name, "static-data-member"))
+                found.append((rel, line, name, tl + "static-data-member"))
         return
     if ctx == "ns":
         if _SKIP_NS.match(s) or is_function_decl or is_constexpr or is_const:
@@ -363,7 +368,7 @@ def _judge(found, rel, line, stmt, ctx):
             # keep the qualifier of out-of-class static member definitions readable
             toks = re.split(r"=|\{|\(", s, 1)[0].split()
             qual = toks[-1].lstrip("*&") if toks and toks[-1].endswith(name.split("::")[-1]) else name
-            found.append((rel, line, qual, "namespace-scope-variable"))
+            found.append((rel, line, qual, tl + "namespace-scope-variable"))
 
 
 # ---------------------------------------------------------------- per-object state carried across calls
@@ -556,6 +561,55 @@ def scan_address_ordering(repo=None):
     return sorted(set(out))
 
 
+# ---------------------------------------------------------------- closures that outlive the call that made them
+# A lambda RETURNED from a function (directly, or through a local that is returned / packed into the returned
+# tuple) must be a value: if it captures `this`, or anything by reference (`[&]`, `[&x]`), or uses the implicit-this
+# default `[=]`, what it computes later depends on what happens to the producing object afterwards.
+_LAMBDA_RE = re.compile(r"\[([^\[\]]*)\]\s*(?:\(|\{|mutable|->)")
+
+
+def _risky_capture(cap):
+    parts = [c.strip() for c in cap.split(",") if c.strip()]
+    for c in parts:
+        if c in ("this", "&", "=") or c.startswith("&") or c.startswith("this"):
+            return c
+    return None
+
+
+def scan_returned_closures(repo=None):
+    """-> sorted list of (rel file, line, function, capture)"""
+    repo = repo or os.environ.get("VERIF_REPO", "/repo")
+    out = []
+    for top in ("include", "src"):
+        for d, _, fs in os.walk(os.path.join(repo, top)):
+            if os.sep + "Python" in d:
+                continue
+            for f in sorted(fs):
+                if not f.endswith((".hpp", ".cpp")):
+                    continue
+                p = os.path.join(d, f); rel = os.path.relpath(p, repo)
+                src = _strip(open(p, errors="replace").read())
+                for (qual, name, pos, body) in _functions(src):
+                    fn = (qual + "::" if qual else "") + name
+                    base = src.find(body, pos)
+                    # (a) `return [cap](…) {…}`
+                    for m in re.finditer(r"\breturn\s*\[([^\[\]]*)\]\s*(?:\(|\{)", body):
+                        c = _risky_capture(m.group(1))
+                        if c:
+                            out.append((rel, src.count("\n", 0, base + m.start()) + 1, fn, "[" + c + "]"))
+                    # (b) `auto / std::function<…> x = [cap]…;  …  return … x …;`
+                    for m in re.finditer(r"\b([A-Za-z_]\w*)\s*=\s*\[([^\[\]]*)\]\s*(?:\(|\{|mutable)", body):
+                        c = _risky_capture(m.group(2))
+                        if c and re.search(r"\breturn\b[^;]*\b" + re.escape(m.group(1)) + r"\b", body[m.end():]):
+                            out.append((rel, src.count("\n", 0, base + m.start()) + 1, fn, m.group(1) + "=[" + c + "]"))
+    return sorted(set(out))
+
+
+# returned closures with a risky capture that are known and argued harmless: "<file>::<function>::<capture>" -> why
+RETURNED_CLOSURE_OK = {
+}
+
+
 # address-dependent orderings that are known and argued harmless: "<file>::<kind>::<text>" -> why
 ADDRESS_ORDER_OK = {
 }
@@ -575,8 +629,25 @@ def scan_repo(repo=None):
     return sorted(set(res))
 
 
+# the storage class of the carriers that have a Coq model: a change (e.g. `static` -> `static thread_local`)
+# changes what the model must say and is reported as an inventory difference
+EXPECTED_KIND = {
+    "include/AIToolbox/Seeder.hpp::instance_": "static-data-member",
+    "src/Seeder.cpp::Seeder::instance_": "namespace-scope-variable",
+    "src/Seeder.cpp::dist": "function-local-static",
+    "include/AIToolbox/Factored/Utils/FactorGraph.hpp::factorAdjacenciesPool_": "static-data-member",
+    "include/AIToolbox/Factored/Utils/FactorGraph.hpp::FactorGraph<FD>::factorAdjacenciesPool_": "namespace-scope-variable",
+}
+# thread_local variables are per-thread process-wide carriers; none exists today
+THREAD_LOCAL_OK = {}
+
+
 def classify(rel, name, kind):
     key = rel + "::" + name
+    if kind.startswith("thread-local-") and key not in THREAD_LOCAL_OK:
+        return "THREAD-LOCAL-UNLISTED", False
+    if key in EXPECTED_KIND and kind != EXPECTED_KIND[key]:
+        return "STORAGE-CLASS-CHANGED", False
     if key in COVERED:
         return COVERED[key][0], True
     base = name.split("::")[-1]
@@ -610,6 +681,9 @@ def inventory_cases():
     for (rel, line, kind, txt) in scan_address_ordering():
         ok = (rel + "::" + kind + "::" + txt) in ADDRESS_ORDER_OK
         out.append("carrier %s %d %s address-ordering-%s %s %s" % (rel, line, txt, kind, "covered" if ok else "unlisted", "address-order-argued" if ok else "UNLISTED"))
+    for (rel, line, fn, cap) in scan_returned_closures():
+        ok = (rel + "::" + fn + "::" + cap) in RETURNED_CLOSURE_OK
+        out.append("carrier %s %d %s returned-closure-capture %s %s" % (rel, line, re.sub(r"\s+", "", fn + cap), "covered" if ok else "unlisted", "closure-argued" if ok else "UNLISTED"))
     for (rel, cls, member, why) in scan_object_state():
         key = cls + "::" + member
         ok = key in CARRIED
@@ -677,6 +751,16 @@ def g_amdp(rng):
         else:
             b = gen_beliefs(rng, S2, 1)[0]; bs.append(b)
     return "amdp %d %d %d %d %d %s" % (S1, B1, S2, B2, nb, " ".join(Qs(b) for b in bs))
+
+
+def g_amdpkeep(rng):
+    S1 = rng.choice([2, 2, 3]); m1 = gen_pomdp(rng, S1, rng.choice([1, 2]), 2)
+    m2 = gen_pomdp(rng, rng.choice([2, 3]), rng.choice([1, 2]), rng.choice([1, 2]))
+    B1 = rng.choice([4, 6, 10]); B2 = rng.choice([1, 2, 3])
+    nb = rng.randint(3, 7)
+    bs = [[F(1, S1)] * S1] + [pow2_belief(rng, S1) if rng.random() < 0.5 else gen_beliefs(rng, S1, 1)[0] for _ in range(nb - 1)]
+    return "amdpkeep %d %d %d %d %d %s %s %d %s" % (rng.randrange(10 ** 6), rng.choice([10, 30]), B1, B2, rng.choice([5, 50]),
+                                              fmt_pomdp(m1), fmt_pomdp(m2), nb, " ".join(Qs(b) for b in bs))
 
 
 def g_amdpm(rng):
@@ -917,7 +1001,7 @@ def g_ve(rng, kind):
 def gen(rng, tier):
     mult = {"quick": 1, "thorough": 4, "search": 2}[tier]
     out = []
-    plan = [(lambda: g_prog(rng), 90), (lambda: g_fg(rng), 90), (lambda: g_amdp(rng), 24), (lambda: g_amdpm(rng), 8),
+    plan = [(lambda: g_prog(rng), 90), (lambda: g_fg(rng), 90), (lambda: g_amdp(rng), 24), (lambda: g_amdpm(rng), 8), (lambda: g_amdpkeep(rng), 12), (lambda: g_prog(rng).replace('prog', 'thread', 1), 30),
             (lambda: g_vi(rng, "vi"), 40), (lambda: g_vi(rng, "pi"), 16), (lambda: g_pomdp(rng), 24),
             (lambda: g_sarsop(rng), 16), (lambda: g_gapmin(rng), 5), (lambda: g_pbreuse(rng), 12), (lambda: g_seeded(rng), 12), (lambda: g_heap(rng), 48), (lambda: g_ve(rng, "ve"), 30), (lambda: g_ve(rng, "rils"), 16)]
     for f, n in plan:
